@@ -228,6 +228,14 @@ pub fn replay(path: &str, out_dir: &str, prop_override: &str) -> Result<Value, S
             let link: ironcalc_base::types::Link = serde_json::from_value(json!({"type": "External", "target": format!("https://x.y/{}", p), "tooltip": null})).map_err(|e| e.to_string())?;
             um.set_cell_link(0, p[0].as_i64().unwrap_or(1) as i32, p[1].as_i64().unwrap_or(1) as i32, link, None)?;
         }
+        for r in init["rowst"].as_array().cloned().unwrap_or_default() {
+            let area = ironcalc_base::expressions::types::Area { sheet: 0, row: r.as_i64().unwrap_or(1) as i32, column: 1, width: 16_384, height: 1 };
+            um.update_range_style(&area, "font.i", "true")?;
+        }
+        for c in init["colst"].as_array().cloned().unwrap_or_default() {
+            let area = ironcalc_base::expressions::types::Area { sheet: 0, row: 1, column: c.as_i64().unwrap_or(1) as i32, width: 1, height: 1_048_576 };
+            um.update_range_style(&area, "font.i", "true")?;
+        }
         let cf0 = &init["cf"];
         let cf_text = |cf: &Value| format!("{}:{}", a1(cf["r1"].as_i64().unwrap_or(1), cf["c1"].as_i64().unwrap_or(1), false, false), a1(cf["r2"].as_i64().unwrap_or(1), cf["c2"].as_i64().unwrap_or(1), false, false));
         let rule = serde_json::from_value(json!({"type": "CellIs", "operator": "GreaterThan", "formula": format!("={}", ref_text(&cf0["fref"], 1)), "formula2": null,
@@ -408,6 +416,23 @@ pub fn replay(path: &str, out_dir: &str, prop_override: &str) -> Result<Value, S
                     }
                     if (got - w as f64).abs() > 1e-6 {
                         report("size", &format!("{which}-size"), format!("{which} {idx}: got {got} want {w}"));
+                        n_mism += 1;
+                        if c14_next { continue 'steps; } else { break 'steps; }
+                    }
+                }
+            }
+            // ---- row and column styles (italic bands)
+            for (which, list) in [("row", &st["rowst"]), ("col", &st["colst"])] {
+                let want: BTreeSet<i64> = list.as_array().map(|a| a.iter().filter_map(|x| x.as_i64()).collect()).unwrap_or_default();
+                for idx in 1..=14i64 {
+                    n_checks += 1;
+                    let got = if which == "row" {
+                        crate::project::effective_row_style(m, 0, idx as i32).map(|s| s.font.i).unwrap_or(false)
+                    } else {
+                        m.get_column_style(0, idx as i32).ok().flatten().map(|s| s.font.i).unwrap_or(false)
+                    };
+                    if got != want.contains(&idx) {
+                        report("cell", &format!("{which}-style"), format!("{which} {idx}: italic band style {got}, want {}", want.contains(&idx)));
                         n_mism += 1;
                         if c14_next { continue 'steps; } else { break 'steps; }
                     }
